@@ -357,7 +357,11 @@ func (t *FnTrans) ghostUpdate(g *Clause, env *Env) {
 			t.fail("%s:%d: %v", g.File, g.Line, err)
 		}
 		env.st = t.cur
+		// vacuity guard: the assumption must not contradict what is known at this point
+		n := t.count("ghost-assume")
+		t.cover(fmt.Sprintf("before.assume.%d", n), "true")
 		t.assume(env.evalBool(e))
+		t.cover(fmt.Sprintf("after.assume.%d", n), "true")
 		t.abstr[fmt.Sprintf("assumed (unchecked) %s: %s", g.Arg, strings.TrimSpace(g.Text[len("assume "):]))] = true
 		return
 	}
@@ -1168,6 +1172,31 @@ func (t *FnTrans) staticMod(x *Expr, ptypes map[string]types.Type, pkg *types.Pa
 				t.viaNoted[c] = true
 			}
 		}
+		return true
+	case x.Op == "call" && x.Name == "lock":
+		// lock state of one mutex field: L.<type>.<field>
+		a := x.Args[0]
+		if a.Op != "sel" {
+			return false
+		}
+		ST := t.staticType(a.Args[0], ptypes)
+		if ST == nil {
+			return false
+		}
+		ST = t.resolve(ST)
+		if p, ok := ST.Underlying().(*types.Pointer); ok {
+			ST = t.resolve(p.Elem())
+		}
+		st, ok := ST.Underlying().(*types.Struct)
+		if !ok {
+			return false
+		}
+		path, _ := findField(st, a.Name)
+		if len(path) != 1 {
+			return false
+		}
+		c, _ := t.fieldComp(ST, "", path[0])
+		t.w(l, "L"+c[1:], "(Array Int Int)")
 		return true
 	case x.Op == "call" && x.Name == "atomic":
 		// the value cell of a sync/atomic object: by pointer (cell heap) or embedded by value (field component)
